@@ -33,11 +33,15 @@ Bind(o) ==
   /\ bal' = [a \in Users \cup Fresh |-> [d \in Denoms |-> IF a \in Users THEN o.ubal[a][d] ELSE Cl(o, a).bal[d]]]
   /\ clients' = {c \in Addrs : Cl(o, c).client = 1}
   /\ grants' = {c \in Addrs : Cl(o, c).grant = 1}
-  /\ funders' = o.funders
-  /\ feegr' = (o.feegr # 0)
-  /\ sale' = [ch \in SaleChains |-> o.sc[ch]]
   /\ now' = o.now
   /\ lk' = [c \in Addrs |-> [d \in Denoms |-> Cl(o, c).locked[d]]]
+
+\* The configuration (funders, fee granter, sale contracts) is NOT bound to the observed stores: the model holds what
+\* the LAST proposal of each kind said, the monitors (SaleOnlyIfConfigured) judge sales against that; what the real
+\* stores hold after every block is compared with it as conformance.
+ObsCfg(o) == <<o.funders, o.feegr # 0, [ch \in SaleChains |-> o.sc[ch]]>>
+CfgOf(a) == [ch \in SaleChains |-> a.sc[ch]]
+NonZero(f) == Cardinality({x \in DOMAIN f : f[x] # 0})
 
 \* |den*vested - orig*num| <= den with vested = orig - locked, whenever the products fit into TLC's integers
 \* only the denomination of the original vesting is ever locked
@@ -87,12 +91,13 @@ Coarse(w) == IF w \in {"licexists", "acctexists", "nolicense", "notfound"} THEN 
 
 TrInit == IsEvent("Init") /\ LET e == Trace[l] IN
   /\ Bind(e.obs) /\ gifts' = ZeroD
+  /\ funders' = <<>> /\ feegr' = FALSE /\ sale' = [ch \in SaleChains |-> 0]
   /\ res' = "init" /\ last' = Rec("Init", 0, 0, 0, 0, 0, 0, 0, 0, "", 0) /\ nops' = 0
   /\ Report("C18.ObservedTypes", TypeOK' /\ EscrowCovers')
   /\ Conf("Init", /\ escrow' = ZeroD /\ lic' = [c \in {} |-> 0] /\ acct' = [c \in Fresh |-> "none"] /\ vest' = [c \in {} |-> 0]
                   /\ bal' = [a \in Users \cup Fresh |-> IF a \in Users THEN [d \in Denoms |-> Funds[a][d]] ELSE ZeroD]
-                  /\ clients' = {} /\ grants' = {} /\ funders' = <<>> /\ ~feegr' /\ sale' = [ch \in SaleChains |-> 0]
-                  /\ e.obs.nonce = <<0, 0>>)
+                  /\ clients' = {} /\ grants' = {} /\ ObsCfg(e.obs) = <<funders', feegr', sale'>> /\ e.obs.nsc = 0
+                  /\ e.obs.nonce = [ch \in SaleChains |-> 0])
 
 Acts == {"AddLicense", "Register", "Auth", "Sale", "SetFunders", "SetFeegranter", "SetSale", "Gift", "Advance"}
 ActEvent(failed) == /\ l <= Len(Trace) /\ Trace[l].act \in Acts
@@ -109,18 +114,20 @@ SpecConf(e) == LET a == e.args IN
                                  /\ res' = (IF w = "ok" THEN "ok" ELSE "noop") /\ SaleEff(w, a.c, a.amt) /\ UNCHANGED cfgv
                                  /\ (w = "ok" => Cl(e.obs, a.c).gspend = Unit)
                                  /\ e.obs.nonce[a.ch] = Trace[l - 1].obs.nonce[a.ch] + 1
-    [] e.act = "SetFunders" -> /\ res' = "ok" /\ UNCHANGED <<fundv, feegr, sale>>
-                               /\ funders' = (IF a.who = 0 THEN <<>> ELSE IF a.as = 0 THEN <<a.who>> ELSE <<a.who, a.as>>)
-    [] e.act = "SetFeegranter" -> res' = "ok" /\ UNCHANGED <<fundv, funders, sale>> /\ e.obs.feegr = FeeGranterIdx
-    [] e.act = "SetSale"    -> /\ res' = "ok" /\ UNCHANGED <<fundv, funders, feegr>>
-                               /\ sale' = [x \in SaleChains |-> IF x = a.ch THEN a.k ELSE 0]
-                               /\ e.obs.nsc = (IF a.k = 0 THEN 0 ELSE 1)
+    [] e.act = "SetFunders" -> res' = "ok" /\ UNCHANGED fundv
+    [] e.act = "SetFeegranter" -> res' = "ok" /\ UNCHANGED fundv /\ e.obs.feegr = FeeGranterIdx
+    [] e.act = "SetSale"    -> res' = "ok" /\ UNCHANGED fundv
     [] e.act = "Gift"       -> LET w == GiftWhy(a.who, a.amt, a.via) IN res' = w /\ GiftEff(w, a.who, a.amt) /\ UNCHANGED cfgv
     [] e.act = "Advance"    -> res' = "ok" /\ UNCHANGED <<fundv, cfgv>>
 
 TrAct == ActEvent(FALSE) /\ LET e == Trace[l]  a == e.args IN
   /\ Bind(e.obs)
-  /\ last' = Rec(e.act, a.who, a.as, a.c, a.amt, a.m, a.ch, a.k, a.q, a.via, IF e.act = "Sale" \/ e.act = "Gift" THEN Bond ELSE a.d)
+  /\ last' = [Rec(e.act, a.who, a.as, a.c, a.amt, a.m, a.ch, a.k, a.q, a.via, IF e.act = "Sale" \/ e.act = "Gift" THEN Bond ELSE a.d) EXCEPT !.sc = a.sc]
+  \* the configuration the model holds: what the last accepted proposal of each kind said
+  /\ funders' = IF e.act = "SetFunders" /\ e.res = "ok"
+                THEN (IF a.who = 0 THEN <<>> ELSE IF a.as = 0 THEN <<a.who>> ELSE <<a.who, a.as>>) ELSE funders
+  /\ feegr' = IF e.act = "SetFeegranter" /\ e.res = "ok" THEN TRUE ELSE feegr
+  /\ sale' = IF e.act = "SetSale" /\ e.res = "ok" THEN CfgOf(a) ELSE sale
   /\ res' = IF e.act = "Sale"
             THEN (IF e.res # "ok" THEN "fail" ELSE IF a.c \in DOMAIN lic' \ DOMAIN lic THEN "ok" ELSE "noop")
             ELSE (IF e.res = "ok" THEN "ok" ELSE Class(e.cs, e.code))
@@ -128,6 +135,9 @@ TrAct == ActEvent(FALSE) /\ LET e == Trace[l]  a == e.args IN
   /\ nops' = nops + 1
   /\ Monitors(e)
   /\ ConfD(e.act, SpecConf(e), <<e.act, a, res', e.res, e.cs, e.code, e.log>>)
+  \* the real stores hold exactly the configuration of the last proposals (nothing stale, nothing lost)
+  /\ ConfD("Config", ObsCfg(e.obs) = <<funders', feegr', sale'>> /\ e.obs.nsc = NonZero(sale'),
+           <<e.act, a, ObsCfg(e.obs), e.obs.nsc, <<funders', feegr', sale'>> >>)
 
 \* a block that could not be finalised / committed at all
 TrBlockFail == ActEvent(TRUE) /\ UNCHANGED <<vars, lk>> /\ Report("C18.BlockFailure", FALSE)
